@@ -202,7 +202,13 @@ func (s State) medianTimestamp() time.Time {
 		return ts[len(ts)/2]
 	}
 	l, r := ts[len(ts)/2-1], ts[len(ts)/2]
-	return l.Add(r.Sub(l) / 2)
+	// NOTE: r.Sub(l) saturates when the timestamps are more than ~292 years
+	// apart, so halve the seconds and nanoseconds separately.
+	ds, dn := r.Unix()-l.Unix(), int64(r.Nanosecond()-l.Nanosecond())
+	if dn < 0 {
+		ds, dn = ds-1, dn+1e9
+	}
+	return time.Unix(l.Unix()+ds/2, int64(l.Nanosecond())+((ds%2)*1e9+dn)/2).In(l.Location())
 }
 
 // MaxFutureTimestamp returns a reasonable maximum value for a child block's
